@@ -123,7 +123,10 @@ def rule_phase(ctx, tu, eff, R="C01.PHASE"):
         f = tu.fn(b + "::ReactionRate")
         ps = f.param_names()
         S = Poly.sym
-        init = [n for n in walk(f.body) if n.get("kind") == "VarDecl" and kids(n)][0]
+        mul0 = [s_ for s_ in cxa.all_stores(f.body) if s_.op == "*="]
+        accname = mul0[0].base[1] if mul0 and mul0[0].base else None
+        init = ([n for n in walk(f.body) if n.get("kind") == "VarDecl" and kids(n) and uname(n) == accname] or
+                [n for n in walk(f.body) if n.get("kind") == "VarDecl" and kids(n)])[0]     # the accumulator's declaration
         ctx.check(cxa.canon(kids(init)[-1]) == "mesh_kr[%r]" % (S(ps[0]) * S("n_reactions") + S(ps[1])), R, init, f.qual,
                   text(init)[:60], "volume-scaled constant of (cell, reaction)", "")
         mul = [s for s in cxa.all_stores(f.body) if s.op == "*="]
